@@ -136,6 +136,9 @@ impl Sut for NativeSut {
 
     fn close(&mut self, strat: Strat) -> Answer {
         let r = catch_unwind(AssertUnwindSafe(|| match strat {
+            // the convenience form closes with the default strategy of the builder: every other
+            // `simple` request goes through it (no monitor depends on which strategy it picks)
+            Strat::Simple if self.nvariants % 2 == 1 => self.builder.close_record_variant(),
             Strat::Simple => self.builder.close_record_variant_with(nvariant::simple),
             Strat::Basic => self.builder.close_record_variant_with(nvariant::basic),
             Strat::Append => self.builder.close_record_variant_with(nvariant::append_data),
